@@ -2,6 +2,7 @@
 SPECIFICATION Spec
 CONSTANTS
   MaxLen = 5
+  Starts <- StartsNone
   Alphabet <- AlphaBase
   Files <- FilesQuick
   FilterLists <- FiltersQuick
